@@ -491,3 +491,24 @@ Example ex_alias_trx :
             map (fun n => option_map (jget "type_variety") (lookup_last n l)) ["aliasA"; "aliasB"; "Voyager"]%string
             = [Some (Some (JStr "aliasA")); Some (Some (JStr "aliasB")); Some (Some (JStr "Voyager"))].
 Proof. cbn zeta. repeat split. eexists. split; vm_compute; reflexivity. Qed.
+
+(* mode-level aliases of a transceiver (Transceiver.__init__): every declared mode is kept without its alias list and
+   every alias names a mode equal to it except that `format` = the alias *)
+Theorem C18_mode_alias_spec : forall ms l, expand_modes ms = Ok l ->
+  forall m names, In m ms -> mode_alias_names m = Ok names ->
+    In (jdel "other_name" m) l /\
+    forall n, In n names ->
+      let m' := jset "format" (JStr n) (jdel "other_name" m) in
+      In m' l /\ jget "format" m' = Some (JStr n) /\ jget "other_name" m' = None /\
+      (forall k, String.eqb k "format" = false -> String.eqb k "other_name" = false -> jget k m' = jget k m).
+Proof. exact mode_alias_spec. Qed.
+Print Assumptions C18_mode_alias_spec.
+
+Example ex_mode_alias :
+  let m1 := [("format"%string, JStr "mode 1"); ("baud_rate"%string, JNum 320000000000 1); ("penalties"%string, JObj []);
+             ("equalization_offset_db"%string, JNum 0 0); ("other_name"%string, JArr [JStr "m1 bis"; JStr "m1 ter"])] in
+  let m2 := [("format"%string, JStr "mode 2"); ("penalties"%string, JObj []); ("equalization_offset_db"%string, JNum 0 0)] in
+  mode_alias_names m1 = Ok ["m1 bis"; "m1 ter"]%string /\
+  option_map (map (jget "format")) (match expand_modes [m1; m2] with Ok l => Some l | Err _ => None end)
+    = Some [Some (JStr "mode 1"); Some (JStr "mode 2"); Some (JStr "m1 bis"); Some (JStr "m1 ter")].
+Proof. vm_compute. split; reflexivity. Qed.
